@@ -174,8 +174,10 @@ def run(tier, seed, t0):
                                  "obs": {"t": t}})
         # canary: the expectation of a different circuit must not match
         k = next(i for i, (t, o) in enumerate(zip(rows, obs)) if o["arr"] and len(t["c"]["layers"]) >= 2 and
-                 any(l["g"]["k"] in ("Rz", "T", "S") for l in t["c"]["layers"]))
-        bad = [v * (-1 if i == len(obs[k]["arr"]) - 1 else 1) for i, v in enumerate(obs[k]["arr"])]
+                 any(l["g"]["k"] in ("Rz", "T", "S") for l in t["c"]["layers"]) and compare(exp[i]["e"], o["arr"])[0]
+                 and max(abs(v) for v in o["arr"]) > 0.2)
+        j = max(range(len(obs[k]["arr"])), key=lambda i: abs(obs[k]["arr"][i]))
+        bad = [v * (-1 if i == j else 1) for i, v in enumerate(obs[k]["arr"])]
         if compare(exp[k]["e"], bad)[0]:
             raise core.Machinery("canary accepted: a sign flip of one entry goes unnoticed")
         cov = {"states": model["distinct"], "transitions": model["generated"],
